@@ -305,6 +305,16 @@ func runC12(rec *vkit.Recorder, c *c12Case) []vkit.Violation {
 		tag = "unassigned"
 	}
 	if aborted != "" {
+		// the reason the proxy itself recorded (assigned targets have a status entry)
+		reason := ""
+		for _, st := range n.tm.TargetsInfo().Status {
+			reason = st.LastError
+		}
+		if strings.Contains(reason, "no forward progress made") {
+			// the vendored stream parser gives up although every line is within its limit (known finding, see DESIGN 8.4)
+			vs = append(vs, vkit.Violation{Key: "C12/response-aborted/parser-makes-no-forward-progress", Msg: fmt.Sprintf("the target answered 200 with a complete payload of %d bytes (longest line %d bytes), the proxy aborted the response to Prometheus after %d bytes: %s", len(pl), longestLine(pl), w.buf.Len(), reason)})
+			return vs
+		}
 		vs = append(vs, vkit.Violation{Key: "C12/response-aborted/" + tag, Msg: fmt.Sprintf("the target answered 200 with a complete payload of %d bytes, the proxy aborted the response to Prometheus (%s) after %d bytes", len(pl), aborted, w.buf.Len())})
 		return vs
 	}
@@ -367,6 +377,16 @@ func runC12(rec *vkit.Recorder, c *c12Case) []vkit.Violation {
 	return vs
 }
 
+func longestLine(pl []byte) int {
+	m := 0
+	for _, l := range bytes.Split(pl, []byte("\n")) {
+		if len(l) > m {
+			m = len(l)
+		}
+	}
+	return m
+}
+
 func firstDiff(a, b []byte) int {
 	for i := 0; i < len(a) && i < len(b); i++ {
 		if a[i] != b[i] {
@@ -389,7 +409,7 @@ func genC12(t *rapid.T) *c12Case {
 		g.Count = rapid.IntRange(1, 8).Draw(t, l+"-count")
 		g.Arg = rapid.IntRange(0, 5).Draw(t, l+"-arg")
 		if g.Kind == "long" {
-			g.Arg = rapid.SampledFrom([]int{100, 5000, 65536 - 20, 70000, 200000}).Draw(t, l+"-len")
+			g.Arg = rapid.SampledFrom([]int{100, 5000, 65536 - 20, 70000, 200000, 131072 - 19, 196606 - 19, 262144 - 30}).Draw(t, l+"-len")
 			g.Count = 1
 		}
 		if big == 0 && g.Kind == "sample" {
